@@ -1113,6 +1113,32 @@ impl<'a> BufVisitor for DriveVisit<'a> {
         r.unwrap_or_else(|p| vec![Res::Panic(p)])
     }
 }
+/// The embedded-hal serial source (it has no end of input: `EhSlice` answers with an error value
+/// once its bytes are used up).
+struct DriveEhVisit<'a> {
+    s: &'a [u8],
+    choices: &'a [u8],
+}
+impl<'a> BufVisitor for DriveEhVisit<'a> {
+    type Out = Vec<Res>;
+    fn visit<B: Buffer + MkBuilder + Send + 'static>(self) -> Vec<Res> {
+        let s = self.s;
+        let ch = self.choices;
+        guarded(|| drive!(B::builder().from_eh_reader(crate::fe::EhSlice { s, i: 0 }), ch)).unwrap_or_else(|p| vec![Res::Panic(p)])
+    }
+}
+/// For the embedded-hal source the end of the bytes shows as the source's error value with the
+/// pending count: `IoErr(Other, n)` plays the role of `IoErr(Eof, n)`, and with nothing pending
+/// that of the end signal.
+fn eh_normalise(v: &[Res]) -> Vec<Res> {
+    v.iter()
+        .map(|r| match r {
+            Res::Io(IoK::Other, n) => Res::Io(IoK::Eof, *n),
+            Res::End => Res::Io(IoK::Eof, 0),
+            x => x.clone(),
+        })
+        .collect()
+}
 fn drive_default(s: &[u8], src: Source, ch: &[u8]) -> Vec<Res> {
     guarded(|| match src {
         Source::Slice => drive!(SmlReader::from_slice(s), ch),
@@ -1295,6 +1321,25 @@ fn c10_case(files: &[usize], noise: &[usize], choices: &[u8], out: &mut Vec<Viol
             check(format!("{:?}/{}", src, k.name()), got, counts);
         }
         check(format!("{:?}/default 8 KiB", src), drive_default(&stream, src, choices), counts);
+    }
+    if all_sources {
+        let want_n = eh_normalise(&want);
+        let comp_n = eh_normalise(&comp);
+        for &k in &kinds {
+            let got = eh_normalise(&crate::dec::with_buf(k, DriveEhVisit { s: &stream, choices }).unwrap_or_else(|| machinery("capacity not instantiated")));
+            counts.inc("reader runs");
+            counts.inc("reader runs over the embedded-hal source");
+            let ok = got.len() == want_n.len() && want_n.iter().zip(&got).all(|(w, g)| res_matches(w, g));
+            if !ok || got != comp_n {
+                out.push(Viol {
+                    class: if !ok { "C10 SmlReader does not yield exactly the transmitted files / noise counts / end of input" } else { "C10 SmlReader differs from composing transport::decode and the parser by hand" }.into(),
+                    key: format!("{} embedded-hal/{}", key, k.name()),
+                    what: format!("embedded-hal serial source with {}: expected [{}] got [{}]", k.name(), want_n.iter().map(res_short).collect::<Vec<_>>().join(", "), got.iter().map(res_short).collect::<Vec<_>>().join(", ")),
+                    case: case.clone(),
+                    size: files.len() * 100 + noise.iter().sum::<usize>() + choices.iter().map(|&c| c as usize).sum::<usize>(),
+                });
+            }
+        }
     }
 }
 fn next_cap(n: usize) -> usize {
